@@ -297,5 +297,38 @@ def task_c16(repo, verif):
 TASKS['c16'] = task_c16
 
 
+def task_c17(repo, verif):
+    """C17 ground part: the printed path of every loop and segment node of every shipped map parses and
+    prints back to itself (exhaustive over the configuration; path texts of any length)"""
+    import pyx12.path
+    out = {'files': 0, 'nodes': 0, 'violations': [], 'max_path_len': 0}
+    mdir, idx, maps, errors = load_all(repo)
+    for f, m in maps.items():
+        out['files'] += 1
+        for n in walk(m):
+            kind = type(n).__name__
+            if kind not in ('loop_if', 'segment_if'):
+                continue
+            out['nodes'] += 1
+            p = n.get_path()
+            out['max_path_len'] = max(out['max_path_len'], len(p))
+            try:
+                xp = pyx12.path.X12Path(p)
+                back = xp.format()
+                xp2 = pyx12.path.X12Path(back)
+            except Exception as e:
+                out['violations'].append({'what': 'path of a shipped node does not parse', 'file': f, 'path': p, 'error': type(e).__name__})
+                continue
+            if back != p:
+                out['violations'].append({'what': 'path of a shipped node does not print back', 'file': f, 'path': p, 'printed': back})
+            elif not (xp == xp2):
+                out['violations'].append({'what': 'parsing the printed path gives an unequal path', 'file': f, 'path': p})
+    out['samples'] = []
+    return out
+
+
+TASKS['c17'] = task_c17
+
+
 if __name__ == '__main__':
     main()
